@@ -199,6 +199,50 @@ def run_property(args):
         except Exception as e:
             crashes.append((eng, "".join(traceback.format_exception(e))[-3000:]))
 
+    # thorough tier: CPython cross-check of the interpreter on random concrete
+    # inputs (disagreement = engine bug = exit 3) and mutation self-test
+    # (sensitivity report only; never changes the exit code)
+    crosscheck_info, mutation_info = None, None
+    if tier == "thorough" and not os.environ.get("VERIF_NO_SELFTEST"):
+        try:
+            from pyvc.crosscheck import crosscheck_contract
+            runs = 0
+            bad = []
+            for cid in cids:
+                c = REGISTRY[cid]
+                if c.kind == "bounded" or c.native_modules:
+                    continue
+                try:
+                    n, b, _sk = crosscheck_contract(c, n=30, seed=seed)
+                except Exception as e:
+                    n, b = 0, []
+                runs += n
+                bad += b
+            crosscheck_info = dict(concrete_runs_compared=runs, disagreements=bad[:10])
+            for b in bad[:5]:
+                crashes.append(("cross-check", b))
+        except Exception as e:
+            crosscheck_info = dict(error=str(e))
+        mpath = os.path.join(VERIF, "mutants", f"{prop}.json")
+        if os.path.exists(mpath) and not os.environ.get("VERIF_REPO"):
+            try:
+                from pyvc.mutate import run_mutant
+                muts = json.load(open(mpath))
+                from concurrent.futures import ThreadPoolExecutor
+                def one(m):
+                    os.environ["VERIF_NO_SELFTEST"] = "1"
+                    st, _ = run_mutant(prop, m, repo=repo_root(), extra_args=("--jobs", "4"))
+                    return m["id"], st, m.get("expect", "detected")
+                with ThreadPoolExecutor(4) as ex:
+                    rs = list(ex.map(one, muts))
+                mutation_info = dict(mutants=len(rs), detected=sum(1 for _, st, _e in rs if st == "detected"),
+                                     undecided=[i for i, st, _e in rs if st == "undecided"],
+                                     missed=[i for i, st, e in rs if st == "missed" and e != "missed"],
+                                     harmless_correctly_ignored=[i for i, st, e in rs if st == "missed" and e == "missed"],
+                                     stale=[i for i, st, _e in rs if st == "stale"])
+            except Exception as e:
+                mutation_info = dict(error=str(e))
+
     known = load_known()
     baseline = load_baseline().get(prop, [])
     total = discharged = 0
@@ -369,6 +413,7 @@ def run_property(args):
             known_findings=sorted({r["known"]["id"] for r in known_hits}),
             refuted=[f"{r['contract']} :: {r['label']} ({r['status']})" for r in violations],
             samples=samples or ["(no solver-checked obligation)"],
+            cross_check=crosscheck_info, mutation_self_test=mutation_info,
             repo_root=repo_root(),
         ),
         assumptions=GLOBAL_ASSUMPTIONS + sorted(f"assumed contract: {a}" for a in assumed) + spec.get("assumptions", []),
